@@ -5,6 +5,7 @@ package cmpp
 func init() {
 	vRegister("VH_C17_compose", VH_C17_compose)
 	vRegister("VH_C17_splitcombine", VH_C17_splitcombine)
+	vRegister("VH_C17_string", VH_C17_string)
 }
 
 // C17 (1): in-range fields land at the bit positions the CMPP spec assigns, and split inverts combine.
@@ -44,5 +45,21 @@ func VH_C17_splitcombine() {
 	back := CombineMsgID(m, d, h, mi, s, g, q)
 	vAssert("C17.splitcombine.identity", back == id)
 	vAssert("C17.split.ranges", vAnd(vAnd(m <= 15, d <= 31), vAnd(vAnd(h <= 31, mi <= 63), vAnd(s <= 63, vAnd(g <= 1<<22-1, q <= 65535)))))
+	vReach("end")
+}
+
+// C17 (3): the decimal string form of a non-zero id parses back to the same id. (Only that is
+// asserted: the width and layout of the string are the mechanism, not the property.)
+func VH_C17_string() {
+	id := vU64("id")
+	s := MsgID2String(id)
+	vObserve("s", s)
+	if id == 0 {
+		vReach("end")
+		return
+	}
+	back := MsgIDString2Uint64(s)
+	vObserve("back", back)
+	vAssert("C17.string.parses-back-to-the-same-id", back == id)
 	vReach("end")
 }
